@@ -4,6 +4,17 @@ HERE = os.path.dirname(os.path.abspath(__file__))
 BASE_CMD = "cd /repo && /venv/bin/python -m pytest -ra -q -p no:cacheprovider --timeout=900 --continue-on-collection-errors"
 
 CLAIMED = {
+ 'C20': dict(
+    text=("Proof: the VCs generated from the real source of the entry-point selection chain are discharged by z3 for all rule lists, units and "
+          "method tables: check_file_processing_flag_and_extract_lang (exact flag), EntryPointRule.check_availablility, "
+          "EntryPointGenerator.{filter_rule_by_unit_info, check_rules, collect_entry_points_from_unit_scope, _load_settings}, "
+          "EntryPointsLoader.{__init__,save,get_entry_points}, Loader.{save,get}_entry_points, ComputeFrameStack.{__init__,add}, "
+          "P3GlobalSemanticAnalysis.{init_frame_stack, run}. Postconditions: selected set == old set U {methods matched by a rule whose unit "
+          "restrictions hold} (both inclusions), saved to the loader iff some rule matches the unit; P3 starts exactly once from every saved entry "
+          "and saves that entry's own graph. Partial: TaintAnalysis.run is not yet under contract."),
+    note=("Trusted: lianvc + encoding, z3; os.walk / yaml / DataModel query as uninterpreted specifications; opaque analysis callees with an assumed "
+          "frame (do not touch the entry-point set); rule files well-typed; args/return_type criteria unused."),
+    design='§4 C20'),
  'C17': dict(
     text=("Proof: every verification condition generated from the real source of EventManager.{add_handler,register,register_list,notify}, "
           "EventData.__init__ and the 11 functions of event_return.py is discharged by z3 for all inputs, all handler lists and all "
